@@ -172,3 +172,64 @@ func ruleR27R28(c *Ctx) {
 	c.r.floor("R27", 6, "sequence closures", "C14")
 	c.r.floor("R28", 6, "yield call sites", "C14")
 }
+
+// R35 CALLTARGET (C05) – the bounded wrappers range over the right iteration and the methods
+// call the like-named helper.
+func ruleR35(c *Ctx) {
+	m := c.m
+	want := map[string]string{"topK": "Backward", "bottomK": "All"}
+	for _, name := range []string{"bottomK", "topK"} {
+		u := m.ByName[name]
+		if u == nil {
+			c.r.undecided("R35", name+" exists", "-", "helper not found", "C05")
+			continue
+		}
+		for _, lu := range m.unitsOf(u)[1:] {
+			found := ""
+			var pos ast.Node = lu.Lit
+			ast.Inspect(lu.Body, func(n ast.Node) bool {
+				if rs, ok := n.(*ast.RangeStmt); ok {
+					if call, ok := ast.Unparen(rs.X).(*ast.CallExpr); ok {
+						if sel, ok := call.Fun.(*ast.SelectorExpr); ok {
+							found = sel.Sel.Name
+							pos = rs
+						}
+					}
+				}
+				return true
+			})
+			key := fmt.Sprintf("%s ranges over %s", name, want[name])
+			if found == want[name] {
+				c.r.ok("R35", key, m.pos(pos.Pos()), "first k of "+found+"()", "C05")
+			} else {
+				c.r.bad("R35", key, m.pos(pos.Pos()), fmt.Sprintf("%s ranges over %q; the first k elements of %s iteration are wanted", name, found, map[string]string{"topK": "descending", "bottomK": "ascending"}[name]), "C05")
+			}
+		}
+	}
+	for _, tk := range m.Trees {
+		for meth, helper := range map[string]string{"TopK": "topK", "BottomK": "bottomK", "All": "all", "Backward": "backward"} {
+			u := tk.Methods[meth]
+			if u == nil {
+				continue
+			}
+			called := ""
+			ast.Inspect(u.Body, func(n ast.Node) bool {
+				if call, ok := n.(*ast.CallExpr); ok && called == "" {
+					called = m.calleeName(call)
+				}
+				return true
+			})
+			key := fmt.Sprintf("%s.%s calls %s", tk.Name, meth, helper)
+			props := []string{"C05"}
+			if meth == "All" || meth == "Backward" {
+				props = []string{"C02"}
+			}
+			if called == helper {
+				c.r.ok("R35", key, m.pos(u.Decl.Pos()), "like-named helper", props...)
+			} else {
+				c.r.bad("R35", key, m.pos(u.Decl.Pos()), fmt.Sprintf("%s calls %s instead of %s", meth, called, helper), props...)
+			}
+		}
+	}
+	c.r.floor("R35", 2+12, "call targets", "C05")
+}
